@@ -173,12 +173,53 @@ def explore(ctx):
         if oa != oi:
             ctx.violation('with the alias: {}; with a copy written out: {}'.format(str(oa)[:150], str(oi)[:150]),
                           dict(L.describe(ca), key='alias-keytypes:{}'.format(ca.text[:60]), inlined_text=ci.text))
-    for c in LC.alias_across_types(ctx, ctx.budget(40, 800)):
+    for c in LC.alias_across_types(ctx, ctx.budget(60, 1200)):
         cases.append(c)
         ctx.case(('alias-across-types', c.text, repr(c.doc_type)), nontrivial=True)
         if c.real_out[0] == 'other':
             ctx.violation('load raises {} for {!r}'.format(c.real_out[1][:100], c.text),
                           dict(L.describe(c), key='alias-escape:' + c.text[:60]))
+        try:
+            ci = L.build_case(rng, yaml, yatiml, c.spec, c.doc_type, LC.inline_aliases(c.doc), ('inlined',))
+            L.run_case(ci, yaml)
+        except Exception as e:  # noqa
+            ctx.count('build_error:' + type(e).__name__)
+            continue
+        cases.append(ci)
+        oa, oi = c13.base_outcome(c), c13.base_outcome(ci)
+        ctx.count('alias_pairs_across_types')
+        if oa != oi:
+            ctx.violation('with the alias: {}; with a copy written out: {}'.format(str(oa)[:150], str(oi)[:150]),
+                          dict(L.describe(c), key='alias-across:{}'.format(c.text[:60]), inlined_text=ci.text))
+    # cycles that run through a merge key, in untyped parts of a document (merge keys are read there)
+    P = lambda nm, t, **kw: dict(name=nm, type=t, **kw)   # noqa: E731
+    opn = dict(name='Open', bases=[], registered=True, kind='plain', params=[P('a', ('int',))], extra=True,
+               abstract=None, define_init=True)
+    opn['all_params'] = opn['params']
+    S = G.S
+    MK = ('s', '<<', False, None)
+    cyc = [('&', 'cyc', ('m', [(MK, ('*', 'cyc')), (S('x'), S('1'))], None)),
+           ('m', [(S('base'), ('&', 'cyc', ('m', [(S('x'), S('1')), (S('sub'), ('m', [(MK, ('*', 'cyc'))], None))], None)))], None),
+           ('&', 'cyc', ('m', [(MK, ('q', [('*', 'cyc')], None))], None)),
+           ('m', [(S('k'), ('&', 'cyc', ('m', [(MK, ('q', [('m', [(S('y'), S('2'))], None), ('*', 'cyc')], None))], None)))], None)]
+    for body in cyc:
+        for t, doc in [(('any',), body), (('map', 'dict', ('str',), ('any',)), ('m', [(S('d'), body)], None)),
+                       (('cls', 'Open'), ('m', [(S('a'), S('1')), (S('more'), body)], None)),
+                       (('seq', 'list', ('any',)), ('q', [body], None))]:
+            try:
+                c2 = L.build_case(rng, yaml, yatiml, [opn], t, doc, ('merge-cycle',))
+                L.run_case(c2, yaml)
+            except Exception as e:  # noqa
+                ctx.count('build_error:' + type(e).__name__)
+                continue
+            cases.append(c2)
+            ctx.case(('merge-cycle', c2.text, repr(t)), nontrivial=True)
+            ctx.count('merge_cycles')
+            bad = c2.real_out[0] in ('ok', 'other') or 'recursion depth' in str(c2.real_out[1])
+            if bad:
+                ctx.violation('a self-referential alias through a merge key gives {} {}'.format(
+                    c2.real_out[0], repr(c2.real_out[1])[:120]),
+                    dict(L.describe(c2), key='merge-cycle:' + c2.text[:60]))
     LC.correspond(ctx, cases)
 
 
